@@ -44,9 +44,9 @@ UNITS = {
         ]),
     'V-cssbuf': dict(
         tmpl='cssbuf.rs.tmpl', props=['C07', 'C01'],
-        functions=['CssBuf::start_block', 'CssBuf::end_block', 'CssBuf::pop_nl', 'CssBuf::add_str', 'CssBuf::add_one',
-                   'CssBuf::opt_nl', 'CssBuf::len', 'CssBuf::indent_level', 'CssBuf::take',
-                   'lemma L-braces (start_block +1 / end_block -1 on the brace balance; indent == 2 * balance is invariant)'],
+        functions=['CssBuf::new', 'CssBuf::format', 'CssBuf::start_block', 'CssBuf::end_block', 'CssBuf::pop_nl', 'CssBuf::add_str',
+                   'CssBuf::add_one', 'CssBuf::opt_nl', 'CssBuf::len', 'CssBuf::indent_level', 'CssBuf::take',
+                   'lemma L-braces (start_block +1 / end_block -1 on the brace balance; indent == 2 * balance holds for what CssBuf::new returns and is invariant)'],
         assumptions=[
             'Verus/Z3 trusted; vstd specs of Vec::{last,pop,is_empty,len,extend_from_slice}, slice::ends_with, str::as_bytes, Option ==',
             'V-cssbuf: Format is a stub (is_compressed only); CssBuf::do_indent is external_body with the contract "appends newline + indent spaces, nothing when compressed", which is discharged on the real code by Kani (c07_cssbuf_do_indent_text_*, contract:get_indent) and Verus V-indent',
